@@ -8,7 +8,7 @@ import z3
 from . import src as S
 from .core import *  # noqa: F401,F403
 from .vals import *  # noqa: F401,F403
-from .vals import SEQ, ROWS, IntRowsP, MapSeqP, SetP, VMapSlot, VGapTuple
+from .vals import SEQ, ROWS, INTARR, StrSeqP, IntRowsP, MapSeqP, SetP, VMapSlot, VGapTuple
 from .schema import SCHEMA, CLASS_MODULE
 
 MAXCP = 0x10FFFF
@@ -63,6 +63,11 @@ class ExprMixin:
                 self.payload0[ref] = RecListP(ln, cls, fields)
                 self.assume_axiom(ln >= 0)
             return VList(ref)
+        if ty == "strseq":
+            ref = name
+            if ref not in self.payload0:
+                self.payload0[ref] = self.fresh_strseq(name)
+            return VList(ref)
         if ty == "tokseq":
             ref = name
             if ref not in self.payload0:
@@ -92,6 +97,15 @@ class ExprMixin:
         if ty == "optopaque":
             return VOpt(z3.Bool(name + "?none"), VObj(name, "<opaque>"))
         raise Unsupported(f"type {ty}")
+
+    def fresh_strseq(self, name, min_len=0):
+        ln = z3.Int(f"len({name})")
+        lens = z3.Const(f"{name}!lens", INTARR)
+        p = StrSeqP(ln, z3.Const(f"{name}!chars", ROWS), lens, name)
+        self.assume_axiom(ln >= min_len)
+        k = fresh("k")
+        self.assume_axiom(z3.ForAll([k], z3.Select(lens, k) >= 0))
+        return p
 
     def assume_axiom(self, c):
         """a fact about freshly introduced symbols (lengths are non-negative, the defining property of an opaque result):
@@ -522,6 +536,10 @@ class ExprMixin:
                 if m & (m + 1) == 0:  # mask 2^k - 1
                     return VInt(x % (m + 1)) if not z3.is_int_value(z3.simplify(x)) else VInt(z3.simplify(x).as_long() & m)
             raise Unsupported(f"int op {type(op).__name__}")
+        if isinstance(op, ast.Add) and isinstance(a, VStr) and a.kind == "lit" and isinstance(b, VAtom):
+            a = VAtom(a.a)
+        if isinstance(op, ast.Add) and isinstance(b, VStr) and b.kind == "lit" and isinstance(a, VAtom):
+            b = VAtom(b.a)
         if isinstance(a, VAtom) and isinstance(b, VAtom) and isinstance(op, ast.Add):
             return VAtom(CAT_ATOM(a.t, b.t))  # concatenation of opaque strings: uninterpreted
         if isinstance(a, VSeqZ) and isinstance(b, VSeqZ) and isinstance(op, ast.Add):
@@ -681,6 +699,8 @@ class ExprMixin:
                 return VInt(t) if p.elem == "int" else VAtom(t)
             if isinstance(p, RecListP):
                 return VElem(base.ref, j, p.cls)
+            if isinstance(p, StrSeqP):
+                return p.elem(j)
             if isinstance(p, GhostSeqP):
                 jj = z3.simplify(j - p.base_len)
                 if z3.is_int_value(jj) and 0 <= jj.as_long() < len(p.items):
